@@ -64,8 +64,11 @@ fn build(c: &Case) -> FnGraph<Acc> {
     let mut b = FnGraphBuilder::new();
     let ids: Vec<FnId> = c.accs.iter().cloned().map(|a| b.add_fn(a)).collect();
     for &(x, y) in &c.edges { b.add_logic_edge(ids[x], ids[y]).unwrap(); }
-    b.build()
+    let g = b.build();
+    // every other graph handed to the drivers is a `clone()` of the built one (the original is dropped): a copy must run like the original
+    if BUILDS.fetch_add(1, std::sync::atomic::Ordering::Relaxed) % 2 == 1 { g.clone() } else { g }
 }
+static BUILDS: std::sync::atomic::AtomicUsize = std::sync::atomic::AtomicUsize::new(0);
 
 fn conflict(a: &Acc, b: &Acc) -> bool {
     a.reads.iter().any(|t| b.writes.contains(t)) || a.writes.iter().any(|t| b.reads.contains(t)) || a.writes.iter().any(|t| b.writes.contains(t))
